@@ -4,6 +4,7 @@ CONSTANT MaxNums = {0}
 CONSTANT Olds = {FALSE}
 CONSTANT Kinds = {"doc"}
 CONSTANT Ranges = {}
+CONSTANT DocEvs = {}
 CONSTANT MaxDup = 1000000
 CONSTANT MaxRangeArr = 1000000
 CONSTANT Policy = "exact"
